@@ -141,6 +141,10 @@ pub fn family(tier: Tier) -> Vec<R> {
         out.push(R::pair(t, R::pair(t, a.clone(), b.clone()), c.clone()));
         out.push(R::pair(t, c.clone(), R::pair(t, b.clone(), a.clone())));
     }
+    // the same set reached through differently GROWN tables: n distinct elements, then a duplicate
+    // inserted exactly when the table is full (hashbrown reserves before it looks the key up), for
+    // the growth steps 3 -> 7 -> 14 -> 28; flat and as an element of another unordered compound
+    out.extend(grown_recipes(&[3]));
     // negative controls: ordered constructors, images, asymmetric statements, differences
     for t in [Tag::Product, Tag::SeqConj] {
         for s in u::sequences(&atoms, 1, 3) {
@@ -170,6 +174,28 @@ pub fn family(tier: Tier) -> Vec<R> {
     out.push(R::node(Tag::Neg, vec![inner[1].clone()]));
     out.sort();
     out.dedup();
+    out
+}
+
+/// the same set reached through differently grown tables (see `family`)
+pub fn grown_recipes(sizes: &[usize]) -> Vec<R> {
+    let set_tags: Vec<Tag> = COMPOUND_TAGS.iter().copied().filter(|t| t.shape() == Shape::Set).collect();
+    let mut out = vec![];
+    for &t in &set_tags {
+        for &n in sizes {
+            let elems: Vec<R> = (0..n).map(|i| R::word(&format!("g{i}"))).collect();
+            let mut with_dup = elems.clone();
+            with_dup.push(elems[0].clone());
+            let mut dup_first = vec![elems[n - 1].clone()];
+            dup_first.extend(elems.iter().cloned());
+            dup_first.push(elems[1].clone());
+            for inner in [elems.clone(), with_dup, dup_first] {
+                out.push(R::node(t, inner.clone()));
+                out.push(R::node(Tag::SetInt, vec![R::node(t, inner.clone()), R::word("x")]));
+                out.push(R::pair(Tag::Equiv, R::word("x"), R::node(t, inner)));
+            }
+        }
+    }
     out
 }
 
@@ -219,6 +245,11 @@ pub fn builds(run: &Run) -> Vec<Build> {
                     big.push((R::pair(Tag::Sim, R::word("x"), R::node(tag, rev.clone())), vec![k + 2]));
                 }
             }
+        }
+    }
+    for r in grown_recipes(&[7, 14, 28]) {
+        for k in 0..big_keys.min(4) {
+            big.push((r.clone(), vec![k, k + 1]));
         }
     }
     run.count("large_set_builds", big.len() as u64);
